@@ -770,7 +770,7 @@ def r5_4(ctx):
     rn = m.fn("Text.render")
     src = norm(rn.node)
     ok = "enumerate(self._spans, 1)" in src and "sorted(stack)" in src and "style_map[0] = get_style(self.style)" in src
-    ctx.check(ok, rn.fq, "render precedence", rn.where, "render combines base style then covering spans in list order", "Text.render no longer combines the base style and the covering spans in span-list order")
+    ctx.shape(ok, rn.fq, "render precedence", rn.where, "render combines base style then covering spans in list order", "Text.render no longer combines the base style and the covering spans in span-list order")
     ctx.floor(n, 5, "span list rewrites")
 
 
@@ -1373,6 +1373,10 @@ def r5_13(ctx):
                     continue
                 has_sorted = any(isinstance(w, ast.Call) and norm(w.func) == "sorted" and w.args and norm(w.args[0]) == "stack" for w in ast.walk(e))
                 if not has_sorted:
+                    direct = any((isinstance(w, ast.comprehension) and norm(w.iter) in ("stack", "reversed(stack)")) for w in ast.walk(e)) or any(isinstance(w, ast.Call) and norm(w.func) in ("tuple", "list", "reversed") and w.args and norm(w.args[0]) == "stack" for w in ast.walk(e))
+                    if direct:
+                        ctx.violation(q.fq, short(c), where, "the styles handed to combine() follow the order in which the spans were ENTERED (the stack), not their order in the span list: a span listed later but starting earlier loses precedence - [Span(2,6,'red'), Span(0,8,'blue')] renders offsets 2-6 red although blue was applied last; render() then disagrees with get_style_at_offset() and slicing changes colours")
+                        continue
                     raise AnalysisError(f"Text.render: the argument of combine() (`{short(e)}`) is not built from sorted(stack); the precedence clause is not decided for this form")
                 ctx.ok(where, "combine() receives every open span's style in ascending span order", q.fq)
     ctx.floor(n, 1, "Style.combine calls in Text.render")
